@@ -54,11 +54,13 @@ pub fn err_class(e: &str) -> String {
     "other".into()
 }
 
+/// Every stored position record of the engine, whatever the key layout: any value in the engine's storage that
+/// deserialises as a complete `Position` (vamm, trader, direction, size, margin, notional, checkpoint, block). Keyed by
+/// the raw storage key, so records under unexpected keys (crafted key collisions) are seen too.
 pub fn raw_positions_of(kv: &Kv, engine: &str) -> BTreeMap<Vec<u8>, Vec<u8>> {
-    let mut p = contract_prefix(engine);
-    p.extend(len_prefixed(b"position"));
+    let p = contract_prefix(engine);
     kv.iter()
-        .filter(|(k, _)| k.starts_with(&p))
+        .filter(|(k, v)| k.starts_with(&p) && v.first() == Some(&b'{') && parse_pos(v).is_some())
         .map(|(k, v)| (k[p.len()..].to_vec(), v.clone()))
         .collect()
 }
@@ -67,17 +69,35 @@ pub fn parse_pos(v: &[u8]) -> Option<Position> {
     serde_json::from_slice(v).ok()
 }
 
+/// Positions of the world's current state for the sum over traders: the stored records when the storage holds any
+/// that parse; otherwise (a storage layout the harness cannot read) the `Position` answers for every wallet the
+/// harness knows on every vAMM.
+pub fn positions_now(w: &World) -> Vec<Position> {
+    let kv = w.store.0.borrow().clone();
+    let recs = raw_positions_of(&kv, w.engine.as_str());
+    if !recs.is_empty() {
+        return recs.values().filter_map(|v| parse_pos(v)).collect();
+    }
+    let mut out = vec![];
+    let n = w.vamms.len() + w.unregistered.is_some() as usize + w.vamm7.is_some() as usize;
+    for v in 0..n {
+        let va = crate::acts::vamm_addr(w, v);
+        for t in WALLETS.iter().copied().chain(["owner", "ice", "bob0", "malice"]) {
+            if let Some(p) = w.pos_at(&va, t) {
+                out.push(p);
+            }
+        }
+    }
+    out
+}
+
 /// true when, in the world's current state, the engine's position sizes do not add up to the vAMM's
 /// net position for some vAMM (the C02 invariant). Such a state is corrupted by a violation that C02
 /// reports at the step that caused it; no check expands it (its successors only repeat the root cause).
 pub fn mirror_broken(w: &World) -> bool {
-    let kv = w.store.0.borrow().clone();
-    let recs = raw_positions_of(&kv, w.engine.as_str());
     let mut sums: BTreeMap<String, i128> = BTreeMap::new();
-    for (_, v) in recs {
-        if let Some(p) = parse_pos(&v) {
-            *sums.entry(p.vamm.to_string()).or_default() += itoi(&p.size);
-        }
+    for p in positions_now(w) {
+        *sums.entry(p.vamm.to_string()).or_default() += itoi(&p.size);
     }
     for (vi, va) in w.vamms.iter().enumerate() {
         if *sums.get(va.as_str()).unwrap_or(&0) != itoi(&w.vstate(vi).total_position_size) {
@@ -110,15 +130,13 @@ pub fn slice_worth_more_than_notional(w: &World, so: &StepObs) -> bool {
 
 // --------------------------------------------------------------------------------------- C02
 pub fn oracle_c02(w: &World, so: &StepObs, out: &mut StepOut) {
-    let recs = raw_positions_of(&so.post_snap.kv, w.engine.as_str());
+    // the world is at the post-state
     let mut sums: BTreeMap<String, i128> = BTreeMap::new();
     let mut n_nonzero = 0;
-    for (_, v) in recs {
-        if let Some(p) = parse_pos(&v) {
-            *sums.entry(p.vamm.to_string()).or_default() += itoi(&p.size);
-            if !p.size.is_zero() {
-                n_nonzero += 1;
-            }
+    for p in positions_now(w) {
+        *sums.entry(p.vamm.to_string()).or_default() += itoi(&p.size);
+        if !p.size.is_zero() {
+            n_nonzero += 1;
         }
     }
     for (vi, va) in w.vamms.iter().enumerate() {
@@ -270,6 +288,24 @@ pub fn oracle_c10(w: &World, so: &StepObs, out: &mut StepOut) {
                         a.map(|v| String::from_utf8_lossy(v).to_string()),
                         b.map(|v| String::from_utf8_lossy(v).to_string())
                     ),
+                );
+            }
+        }
+    }
+    if pre.is_empty() && post.is_empty() {
+        // a storage layout the harness cannot read: compare the `Position` answers of the observed traders instead
+        for ((v, t), a) in so.pre.traders.iter() {
+            if t == sender || Some(t.as_str()) == named {
+                continue;
+            }
+            let b = &so.post.traders[&(*v, t.clone())];
+            if a.pos.is_some() || b.pos.is_some() {
+                others += 1;
+            }
+            if a.pos != b.pos {
+                out.viol(
+                    format!("C10:foreign-position-changed:{}", so.act.kind()),
+                    format!("position of {} on vamm{} changed by {:?}: {:?} -> {:?}", t, v, so.act, a.pos, b.pos),
                 );
             }
         }
